@@ -80,6 +80,15 @@ def replay_family(chk: Check, fam, data, tier):
                     bad = np.nonzero(dec & (got != (want == 1)))[0]
                     if len(bad):
                         report(chk, kind, els[i], aff, subtype, parr, int(bad[0]), "array", bool(got[bad[0]]), int(want[bad[0]]))
+                    if i % 23 == 2 and n >= 3 and chk.budget("tiled", 60 if tier == "quick" else 600):
+                        from .measures import tiled
+                        big, bpos = tiled(parr)
+                        gb = np.asarray(big.intersects(shape))
+                        chk.count(len(big))
+                        if gb.shape != (len(big),) or not np.array_equal(gb, got[bpos]):
+                            j = int(np.nonzero(gb != got[bpos])[0][0]) if gb.shape == (len(big),) else 0
+                            report(chk, kind, els[i], aff, subtype, parr, int(bpos[j]), f"array tiled to {len(big)} points (position {j})",
+                                   bool(gb[j]) if gb.shape == (len(big),) else None, int(want[bpos[j]]))
                     got_i = np.asarray(parr.intersects(shape, inds))
                     if not np.array_equal(got_i, got[inds]):
                         j = int(np.nonzero(got_i != got[inds])[0][0])
